@@ -38,6 +38,7 @@ def run_seed(pid, seed, idx):
 
 def generate(pm, pid, seed, idx, tier):
     rng = random.Random(run_seed(pid, seed, idx))
+    rng.idx = idx
     scn = pm.generate(rng, tier)
     scn["property"] = pid
     scn["seed"] = seed
